@@ -13,7 +13,7 @@ from .. import molgen
 from ..boot import VERIF, REPO
 from ..core import hyp_run, Recorder, HarnessError
 from .c19_worker import KEYS as _KEYS, MUTATORS
-KEYS = _KEYS + ['op:' + o for o in MUTATORS] + ['rxn:member', 'txn:abort']
+KEYS = _KEYS + ['op:' + o for o in MUTATORS] + ['rxn:member', 'txn:abort', 'search:state']
 
 ID = 'C19'
 RULE = ('configuration sweep: a drawn sample of molecule specs (corpus, curated, literals, constructive, symmetric) is evaluated '
